@@ -1,5 +1,6 @@
 //! nucleo-side harness: boxcar vector, worker/tick protocol and par_sort, built against /repo with
 //! --cfg nucleo_verif.
+mod append_cmd;
 mod boxcar_cmd;
 mod nucleo_cmd;
 mod sched;
@@ -7,6 +8,7 @@ mod sched;
 fn main() {
     let args: Vec<String> = std::env::args().collect();
     match args.get(1).map(|s| s.as_str()).unwrap_or("") {
+        "append" => append_cmd::run(&args[2]),
         "boxcar" => boxcar_cmd::run(&args[2]),
         "nucleo" => nucleo_cmd::run(&args[2]),
         "nucleo-table" => nucleo_cmd::table(),
